@@ -576,5 +576,5 @@ META = {
     "note": "Decides the listed structural clauses, not the behaviour. Trusted: os.replace is atomic on POSIX, "
     "tempfile.mkstemp creates a fresh file, sqlite3 `with conn:` commits/rolls back. Allow-list: creation of a "
     "not-yet-existing session file; JsonHistory.clear (not an operation the property lists).",
-    "more": "SQLite: saved rows are changed by row-level statements only (no DROP / RENAME / re-CREATE of the history table, which sqlite3 commits one by one). JSON: no handler that catches a failing file-system call around the read of the old file leads on to the rename - a read failure never becomes 'start from an empty history'.",
+    "more": "SQLite: saved rows are changed by row-level statements only (no DROP / RENAME / re-CREATE of the history table, which sqlite3 commits one by one). JSON: no handler that catches a failing file-system call around the read of the old file leads on to the rename - a read failure never becomes 'start from an empty history'. The lazy reader never re-raises a failing file-system call as a content error (the flusher keeps the file on OSError and starts empty on ValueError).",
 }
